@@ -300,22 +300,31 @@ impl TopicCache {
     &'a self,
     last_read_sn: &'a BTreeMap<GUID, SequenceNumber>,
   ) -> Box<dyn Iterator<Item = (Timestamp, &'a CacheChange)> + 'a> {
-    Box::new(
-      self
-        .sequence_numbers
-        .iter()
-        .flat_map(|(guid, sn_map)| {
-          let lower_bound_exc = last_read_sn
-            .get(guid)
-            .cloned()
-            .unwrap_or(SequenceNumber::zero());
-          let upper_bound_exc = self.reliable_before(*guid);
-          // make sure lower < upper, so that `.range()` does not panic.
-          let upper_bound_exc = max(upper_bound_exc, lower_bound_exc.plus_1());
-          sn_map.range((Excluded(lower_bound_exc), Excluded(upper_bound_exc)))
-        }) // we get iterator of Timestamp
-        .filter_map(|(_sn, t)| self.get_change(t).map(|cc| (*t, cc))),
-    )
+    // For each writer, the next unread change that is known to be reliably
+    // received (no undeclared holes before it). Per-writer order is by sequence
+    // number; across writers the candidates are offered in reception order, so
+    // that a DataReader sees changes of different writers to the same instance
+    // in the order they arrived (DestinationOrder by reception timestamp),
+    // not grouped by writer GUID.
+    let mut next_per_writer: Vec<(Timestamp, &'a CacheChange)> = self
+      .sequence_numbers
+      .iter()
+      .filter_map(|(guid, sn_map)| {
+        let lower_bound_exc = last_read_sn
+          .get(guid)
+          .cloned()
+          .unwrap_or(SequenceNumber::zero());
+        let upper_bound_exc = self.reliable_before(*guid);
+        // make sure lower < upper, so that `.range()` does not panic.
+        let upper_bound_exc = max(upper_bound_exc, lower_bound_exc.plus_1());
+        sn_map
+          .range((Excluded(lower_bound_exc), Excluded(upper_bound_exc)))
+          .filter_map(|(_sn, t)| self.get_change(t).map(|cc| (*t, cc)))
+          .next()
+      })
+      .collect();
+    next_per_writer.sort_by_key(|(t, _cc)| *t);
+    Box::new(next_per_writer.into_iter())
   }
 
   fn reliable_before(&self, writer: GUID) -> SequenceNumber {
